@@ -1618,3 +1618,138 @@ example :
   decide
 
 end Epytext
+
+/-! ## 12. `_tokenize_para`: what is taken for a heading underline -/
+namespace Epytext
+
+theorem allSame_iff (c : Char) (l : List Char) : allSame c l = true ↔ ∀ x ∈ l, x = c := by
+  induction l with
+  | nil => simp [allSame]
+  | cons a as ih =>
+    by_cases h : a = c
+    · simp [allSame, h, ih]
+    · simp [allSame, h]
+
+/-- **only a run of one repeated heading character is an underline**: if the second line of a paragraph
+contains any character other than a single repeated `=`, `-` or `~`, the paragraph is an ordinary
+paragraph — no heading, and not even the "possible heading typo" warning; both lines stay text -/
+theorem not_underline_of_other_char (c0 c1 : List Char) (hne : c1 ≠ [])
+    (h : ¬ ∃ hc, hc ∈ headingChars ∧ ∀ x ∈ c1, x = hc) : headingOf c0 (some c1) = .para := by
+  cases c1 with
+  | nil => exact absurd rfl hne
+  | cons a t =>
+    simp only [headingOf]
+    by_cases h1 : headingChars.contains a = true
+    · have hmem : a ∈ headingChars := by simpa using h1
+      have hns : allSame a (a :: t) = false := by
+        cases hs : allSame a (a :: t) with
+        | false => rfl
+        | true => exact absurd ⟨a, hmem, (allSame_iff a (a :: t)).mp hs⟩ h
+      simp only [h1, hns]
+      split <;> simp
+    · have hnm : a ∉ headingChars := by simpa using h1
+      simp [hnm]
+
+/-- a paragraph becomes a heading only when its second line is a run of one heading character exactly as
+long as the first line; the level is the position of that character in `=-~` -/
+theorem heading_underline (c0 c1 : List Char) (l : Nat) (h : headingOf c0 (some c1) = .heading l) :
+    ∃ hc, headingChars[l]? = some hc ∧ (∀ x ∈ c1, x = hc) ∧ c1.length = c0.length ∧ c1 ≠ [] := by
+  cases c1 with
+  | nil => simp [headingOf] at h
+  | cons a t =>
+    simp only [headingOf] at h
+    split at h
+    · cases h
+    · rename_i h1
+      split at h
+      · cases h
+      · rename_i h2
+        split at h
+        · cases h
+        · rename_i h3
+          have hl : headingChars.idxOf a = l := by injection h
+          have hmem : a ∈ headingChars := by
+            by_cases hm : a ∈ headingChars
+            · exact hm
+            · exact absurd (by simp [hm]) h1
+          have hsame : allSame a (a :: t) = true := by
+            cases hs : allSame a (a :: t) <;> simp [hs] at h2 ⊢
+          refine ⟨a, ?_, (allSame_iff a (a :: t)).mp hsame, ?_, by simp⟩
+          · rw [← hl]
+            simp only [headingChars, List.mem_cons, List.not_mem_nil, or_false] at hmem
+            rcases hmem with rfl | rfl | rfl <;> decide
+          · simp only [ne_eq, Decidable.not_not] at h3
+            exact h3.symm
+
+/-- non-vacuity, and the line pair of the seeded change: a text line that merely starts with `-` and is as
+long as the line above is not an underline -/
+example :
+    headingOf "Return value".toList (some "============".toList) = .heading 0 ∧
+    headingOf "Title".toList (some "-----".toList) = .heading 1 ∧
+    headingOf "Title".toList (some "~~~~".toList) = .typo ∧
+    headingOf "Returns the index of the item or".toList (some "-1 when the item cannot be found".toList) = .para := by
+  decide
+
+end Epytext
+
+/-! ## 13. paired fields (`@return`/`@rtype`, `@yield`/`@ytype`): both texts are kept in either order -/
+namespace Docstring
+open Fields
+
+/-- description then type, or type then description — from any state of `return_desc` / `yields_desc` the
+entry ends up with both texts -/
+theorem pair_both_orders_kept (init : Option PairDesc) (a b : Nat) :
+    runPair init [.desc a, .type b] = runPair init [.type b, .desc a] ∧
+    (∃ d, runPair init [.desc a, .type b] = some d ∧ d.body = some a ∧ d.type = some b) := by
+  cases init with
+  | none => exact ⟨rfl, _, rfl, rfl, rfl⟩
+  | some d => exact ⟨rfl, _, rfl, rfl, rfl⟩
+
+theorem runPair_exists (init : Option PairDesc) (e : PairEvent) (es : List PairEvent) :
+    ∃ d, runPair init (e :: es) = some d := by
+  have key : ∀ (es : List PairEvent) (d : PairDesc), ∃ d', es.foldl pairStep (some d) = some d' := by
+    intro es
+    induction es with
+    | nil => intro d; exact ⟨d, rfl⟩
+    | cons x xs ih => intro d; cases x <;> exact ih _
+  cases e <;> exact key es _
+
+/-- in any sequence of fields of the pair, the entry shows the text of the last description field and of
+the last type field: with one of each, in any order and with anything before, both are shown -/
+theorem runPair_last_desc (init : Option PairDesc) (es : List PairEvent) (a : Nat) (rest : List PairEvent)
+    (hrest : ∀ e ∈ rest, ∀ t, e ≠ .desc t) :
+    ∃ d, runPair init (es ++ .desc a :: rest) = some d ∧ d.body = some a := by
+  unfold runPair
+  rw [List.foldl_append, List.foldl_cons]
+  generalize List.foldl pairStep init es = st
+  have key : ∀ (rest : List PairEvent) (d : PairDesc), (∀ e ∈ rest, ∀ t, e ≠ .desc t) → d.body = some a →
+      ∃ d', rest.foldl pairStep (some d) = some d' ∧ d'.body = some a := by
+    intro rest
+    induction rest with
+    | nil => intro d _ hb; exact ⟨d, rfl, hb⟩
+    | cons x xs ih =>
+      intro d hx hb
+      cases x with
+      | desc t => exact absurd rfl (hx _ (by simp) t)
+      | type t => exact ih _ (fun e he => hx e (by simp [he])) (by simpa [pairStep] using hb)
+  exact key rest _ hrest rfl
+
+theorem runPair_last_type (init : Option PairDesc) (es : List PairEvent) (b : Nat) (rest : List PairEvent)
+    (hrest : ∀ e ∈ rest, ∀ t, e ≠ .type t) :
+    ∃ d, runPair init (es ++ .type b :: rest) = some d ∧ d.type = some b := by
+  unfold runPair
+  rw [List.foldl_append, List.foldl_cons]
+  generalize List.foldl pairStep init es = st
+  have key : ∀ (rest : List PairEvent) (d : PairDesc), (∀ e ∈ rest, ∀ t, e ≠ .type t) → d.type = some b →
+      ∃ d', rest.foldl pairStep (some d) = some d' ∧ d'.type = some b := by
+    intro rest
+    induction rest with
+    | nil => intro d _ hb; exact ⟨d, rfl, hb⟩
+    | cons x xs ih =>
+      intro d hx hb
+      cases x with
+      | type t => exact absurd rfl (hx _ (by simp) t)
+      | desc t => exact ih _ (fun e he => hx e (by simp [he])) (by simpa [pairStep] using hb)
+  exact key rest _ hrest rfl
+
+end Docstring
